@@ -1,6 +1,7 @@
 import Bip39V.Gen.Code.Language_String
 import Bip39V.Lemmas.GoSem
 /-! Refinement for the stringer-generated `Language.String` (language_string.go). -/
+set_option linter.unusedSimpArgs false
 namespace Bip39V
 open Model Go
 
@@ -10,20 +11,23 @@ theorem string_bound_code : subI (lenInts Gen.Code.«_Language_index») 1 = (Gen
 theorem refine_Language_String (W : World) (i : Int) (st : St) :
     Gen.Code.Language_String W i st = (Model.langString i, st) := by
   by_cases hg : i < 0 ∨ i ≥ 10
-  · have hc : (decide (i < (0 : Int)) || decide (i ≥ subI (lenInts Gen.Code.«_Language_index») 1)) = true := by
-      rw [string_bound_code]
-      have : ((Gen.Language_index.index.length : Nat) : Int) - 1 = 10 := by decide
-      rw [this]; simpa using hg
-    have hm : (i < Gen.Language_String.lo || i >= ((Gen.Language_index.index.length : Nat) : Int) - Gen.Language_String.lenDec) = true := by
+  · have hm : (i < Gen.Language_String.lo || i >= ((Gen.Language_index.index.length : Nat) : Int) - Gen.Language_String.lenDec) = true := by
       have : ((Gen.Language_index.index.length : Nat) : Int) - Gen.Language_String.lenDec = 10 := by decide
       rw [this]
       have : Gen.Language_String.lo = 0 := rfl
       rw [this]; simpa using hg
+    have hlen : subI (lenInts Gen.Code.«_Language_index») 1 = 10 := by decide
     unfold Gen.Code.Language_String Model.langString
     dsimp only
-    rw [if_pos hc, if_pos hm]
-    simp only [Go.pure, List.append_assoc]
-    rfl
+    rw [if_pos hm]
+    -- whichever way the source writes its range test: the branch that formats the number is taken,
+    -- the other one contradicts `hg`
+    split
+    all_goals first
+      | (simp only [Go.pure, List.append_assoc]; rfl)
+      | (exfalso; rename_i hcnd
+         simp only [Bool.and_eq_true, Bool.or_eq_true, decide_eq_true_eq, hlen, Int.not_lt, Int.not_le, ge_iff_le] at hcnd
+         omega)
   · have : i = 0 ∨ i = 1 ∨ i = 2 ∨ i = 3 ∨ i = 4 ∨ i = 5 ∨ i = 6 ∨ i = 7 ∨ i = 8 ∨ i = 9 := by omega
     rcases this with h | h | h | h | h | h | h | h | h | h <;> subst h <;> rfl
 
